@@ -48,13 +48,32 @@ class FakeRouter(object):
     return len(self.d)
 
 
+class BackpressureTransport(StringTransport):
+  """like a real TCP transport whose send buffer fills up: write() itself calls the registered push
+  producer's pauseProducing() - in the middle of a batch - every `period`-th write; the harness resumes it later"""
+  period = 0
+  nwrites = 0
+  npauses = 0
+
+  def write(self, data):
+    StringTransport.write(self, data)
+    self.nwrites += 1
+    if self.period and self.nwrites % self.period == 0 and self.producer is not None:
+      self.npauses += 1
+      self.producer.pauseProducing()
+
+  def writeSequence(self, data):
+    for d in data:
+      self.write(d)
+
+
 class HopEnv(object):
   def __init__(self, ctx):
     self.wm = wiresys.WireModules(ctx.scratch)
     self.wm.settings['PICKLE_RECEIVER_MAX_LENGTH'] = 2 ** 20
     self.configured = None
 
-  def client(self, proto, mpm):
+  def client(self, proto, mpm, pause_period=0):
     s = self.wm.settings
     s['MAX_DATAPOINTS_PER_MESSAGE'] = mpm
     s['MAX_QUEUE_SIZE'] = 100000
@@ -85,7 +104,8 @@ class HopEnv(object):
     router.addDestination(dest)
     f = cls(dest, router)
     p = f.buildProtocol(IPv4Address('TCP', '127.0.0.1', 2004))
-    tr = StringTransport()
+    tr = BackpressureTransport()
+    tr.period = pause_period
     p.makeConnection(tr)
     return f, p, tr
 
@@ -125,7 +145,8 @@ def one_queue(ctx, he, rng, proto, mpm, n):
     pool = [dps[0][0], dps[-1][0]]
     dps = [(pool[q % 2] if rng.random() < 0.7 else d[0], float(1000 + 3 * q) + (0.5 if rng.random() < 0.3 else 0.0), d[2])
            for q, d in enumerate(dps)]
-  f, p, tr = he.client(proto, mpm)
+  # every other queue goes out through a transport that pushes back in the middle of batches
+  f, p, tr = he.client(proto, mpm, pause_period=rng.choice([0, 0, 1, 2, 3, 5]))
   # datapoints arrive in bursts; the send timer fires in between
   i = 0
   while i < n:
@@ -135,8 +156,12 @@ def one_queue(ctx, he, rng, proto, mpm, n):
     i += k
     for _ in range(rng.randint(0, 3)):
       he.reactor.clock.advance(1)
-  for _ in range(n + 5):
+      if getattr(p, 'paused', False) and rng.random() < 0.6:
+        p.resumeProducing()          # the transport's buffer drained
+  for _ in range(3 * n + 5):
     he.reactor.clock.advance(1)
+    if getattr(p, 'paused', False):
+      p.resumeProducing()
   raw = tr.value()
   # independent decoder: batch structure of the bytes
   frames, batches = [], []
